@@ -30,6 +30,7 @@ from vf import core, pki
 from vf.refs import dat_ref as R
 
 ID = "C15"
+ROTATING_PKI = 0.3  # fraction of the key / certificate paths that are rotating slots (vf/pki.py)
 LEVEL = "exploration"
 TECHNIQUE = ("runtime monitoring: independent field-level decoder + pure-Python signature verification of real "
              "credentials/responses, signer hook (M-SIGN) compared with the model message, metamorphic binding checks")
